@@ -119,6 +119,24 @@ def eval_tree(tree, xs, want_all=True):
         one("densify", lambda: cola.densify(A), R.M, bound_dense + (0 if R.exact else 1) * np.max(R.Mabs, initial=0), (R.dtype, A.dtype), R.dtype)
         one("generic_to_dense", lambda: cola.ops.LinearOperator.to_dense(A), R.M,
             bound_dense + (0 if R.exact else 1) * np.max(R.Mabs, initial=0), (R.dtype, A.dtype), R.dtype)
+        # the same operator object used from the right, from the left and through its transpose, with operand widths
+        # taken from the dimensions that occur inside the tree (scratch space of a node is sized by its child's shape
+        # and the operand width), and the first right product repeated afterwards
+        if not fails and xs:
+            dtl = xs[-1].dtype
+            dt = np.result_type(R.dtype, dtl)
+            r, c = R.shape
+            widths = sorted({d for nd in IR.nodes(tree) for d in IR.denote(nd).shape if 1 <= d <= 8} | {1})[:4] if IR.size(tree) <= 12 else [1]
+            for k in widths:
+                Yr = (np.arange(c * k).reshape(c, k) % 5 - 2).astype(dtl)
+                Yl = (np.arange(k * r).reshape(k, r) % 3 - 1).astype(dtl)
+                Yt = (np.arange(k * r).reshape(r, k) % 4 - 1).astype(dtl)
+                one("right_w%d" % k, lambda: A @ Yr, R.M.astype(dt) @ Yr.astype(dt), R.Mabs @ np.abs(Yr), (dt, A.dtype), dt)
+                one("left_then", lambda: Yl @ A, Yl.astype(dt) @ R.M.astype(dt), np.abs(Yl) @ R.Mabs, (dt, A.dtype), dt)
+                one("transpose_then", lambda: A.T @ Yt, R.M.T.astype(dt) @ Yt.astype(dt), R.Mabs.T @ np.abs(Yt), (dt, A.dtype), dt)
+                one("right_again", lambda: A @ Yr, R.M.astype(dt) @ Yr.astype(dt), R.Mabs @ np.abs(Yr), (dt, A.dtype), dt)
+                if fails:
+                    break
     return fails, R
 
 
